@@ -741,6 +741,20 @@ def cpp_ownership_findings(mod, d, out, replay_dir):
         if calls != 1:
             report(sym, "the C++ wrapper of %s calls the C function %d times; the Rust method must run exactly once" % (sym, calls), text)
             continue
+        # callbacks: Rust owns what it is handed (it may keep the callback beyond the call and releases it through the
+        # destructor), so the wrapper must pass a heap copy of the std::function together with its deleter
+        ncb = len([1 for _, t in m.params if isinstance(t, B.Callback)])
+        if ncb:
+            inits = re.findall(r"\{\s*([^{},]+?)\s*,\s*diplomat::fn_traits\(\s*(\w+)\s*\)\.c_run_callback\s*,\s*([^{},]+?)\s*\}", body)
+            if len(inits) != ncb:
+                notes.append("%s: %d callback parameter(s) but %d recognised callback initialisers" % (sym, ncb, len(inits)))
+            for data, pn, dtor in inits:
+                if re.sub(r"\s+", "", data) != "newdecltype(%s)(std::move(%s))" % (pn, pn):
+                    report(sym + "." + pn, "callback argument %s of %s is handed to Rust as `%s`, not as an owned heap copy `new decltype(%s)(std::move(%s))`: "
+                                           "Rust may keep the callback beyond the call, and a borrowed std::function dies when the wrapper returns" % (pn, sym, data.strip(), pn, pn), text)
+                elif re.sub(r"\s+", "", dtor) != "diplomat::fn_traits(%s).c_delete" % pn:
+                    report(sym + "." + pn, "callback argument %s of %s is handed to Rust with destructor `%s` instead of diplomat::fn_traits(%s).c_delete: the heap copy is never released (or released wrongly)"
+                           % (pn, sym, dtor.strip(), pn), text)
         if m.ret is None:
             continue
         want, tname = owned_in(m.ret)
